@@ -579,6 +579,23 @@ def r_radix(ctx: RuleCtx, col: Collector):
         col.bad(where_of(fd), fd.rel, line_of(fd.node), "node decoder radices match the encoder",
                 f"get_node_indices decodes with {decoded} but get_nodenumber encodes with radices {rad} (least significant "
                 f"first): node numbers and Cartesian indices are no longer inverse to each other")
+    # stride tables: a literal [1, r0, r0*r1] anywhere in the class must be the cumulative products of the radices
+    flat = lambda t: t.replace("(", "").replace(")", "")
+    for name, defs in sorted(dd.methods.items()):
+        for g in defs:
+            for n in ast.walk(g.node):
+                if isinstance(n, (ast.List, ast.Tuple)) and len(n.elts) == 3 and isinstance(n.elts[0], ast.Constant) and \
+                        n.elts[0].value == 1 and isinstance(n.elts[2], ast.BinOp) and isinstance(n.elts[2].op, ast.Mult):
+                    radn, rade = [flat(r) for r in hn[1]], [flat(r) for r in he[1]]
+                    e1, e2 = flat(norm(n.elts[1])), flat(norm(n.elts[2]))
+                    ok = any(e1 == r[0] and e2 in (f"{r[0]}*{r[1]}", f"{r[1]}*{r[0]}") for r in (radn, rade))
+                    if ok:
+                        col.ok(where_of(g), g.rel, line_of(n), f"stride table {U(n)}", "cumulative products of the encoder radices")
+                    else:
+                        col.bad(where_of(g), g.rel, line_of(n), f"stride table {U(n)}",
+                                f"the strides are not [1, r0, r0*r1] for the encoder radices {hn[1]} (nodes) or {he[1]} "
+                                f"(elements): numbers computed through this table disagree with get_nodenumber/get_elemnumber "
+                                f"whenever the grid is not square")
     # counts
     init = m.resolve_method(dd, "__init__")
     s = m.self_name(init)
@@ -673,6 +690,20 @@ def r_dir_valid(ctx: RuleCtx, col: Collector):
     else:
         col.bad(where_of(f), f.rel, line_of(f.node), "z-component asserted zero for 2-D domains",
                 "no assertion (under a dim == 2 test reached on every path) that the print direction has no z-component")
+    # the sign of a string direction may stand before or after the axis letter ('-y', 'y-'): it must be found by a
+    # position-independent test
+    for n in ast.walk(f.node):
+        if isinstance(n, (ast.IfExp, ast.If)) and any(isinstance(x, ast.Constant) and x.value == "-" for x in ast.walk(n.test)):
+            t = n.test
+            positional = [x for x in ast.walk(t) if (isinstance(x, ast.Call) and isinstance(x.func, ast.Attribute)
+                                                      and x.func.attr in ("startswith", "endswith", "index", "rindex"))
+                          or (isinstance(x, ast.Subscript) and isinstance(x.slice, (ast.Constant, ast.UnaryOp)))]
+            if positional:
+                col.bad(where_of(f), f.rel, line_of(t), f"sign of a string direction: {U(t)}",
+                        f"the sign is read with a position-dependent test ('{U(positional[0])}'): the documented forms "
+                        f"'-y' and 'y-' are not both recognised")
+            else:
+                col.ok(where_of(f), f.rel, line_of(t), f"sign of a string direction: {U(t)}", "position-independent test")
     ns = [a for a in asserts if "nsampling" in norm(a.ast) and "dim" in norm(a.ast)]
     if ns and cfg.must_pass(cfg.entry, cfg.exit, ns):
         col.ok(where_of(f), f.rel, line_of(ns[0].ast), "number of support points validated against the dimension", "")
